@@ -592,7 +592,29 @@ pub fn check_marker<EF: Field>(circuit: &Circuit<EF>, pubs: &[EF], privs: &[EF],
             }
         }
     }
+    // the order in which the REAL packing code lays out element kinds (run-length encoded), for Trace_Packing.tla
+    let kind_of = |v: &EF, loc: Loc| -> &'static str {
+        for (kind, es) in exp {
+            if es.iter().any(|(l, x)| *l == loc && x == v) {
+                return kind;
+            }
+        }
+        "unknown"
+    };
+    let rle = |vals: &[EF], loc: Loc| -> Vec<Value> {
+        let mut out: Vec<(&'static str, usize)> = Vec::new();
+        for v in vals {
+            let k = kind_of(v, loc);
+            match out.last_mut() {
+                Some((lk, n)) if *lk == k => *n += 1,
+                _ => out.push((k, 1)),
+            }
+        }
+        out.into_iter().map(|(k, n)| json!([k, n])).collect()
+    };
+    let (pub_kinds, priv_kinds) = (rle(pubs, Loc::Pub), rle(privs, Loc::Priv));
     let info = json!({"leaves_checked": checked, "weak_checked": weak_checked, "targets_sharing_a_witness": aliased,
+        "public_kinds": pub_kinds, "private_kinds": priv_kinds,
         "public_len": pubs.len(), "private_len": privs.len(),
         "public_positions_not_reached_by_a_walked_target": used_pub.iter().filter(|u| !**u).count(),
         "private_positions_not_reached_by_a_walked_target": used_priv.iter().filter(|u| !**u).count()});
